@@ -1,5 +1,4 @@
 SPECIFICATION Spec
-CONSTANT Defs <- MCDefs
 CONSTANT ZeroLenIsError = TRUE
 CHECK_DEADLOCK FALSE
 INVARIANT TypeOK
